@@ -30,6 +30,7 @@ structure PState where
 def privStep (ev : String → String) (lits : Heap) (p : PState) : Op → PState
   | .bind (.ref l) => { p with cur := (lits[l]?).map fun o => ⟨o.kind, o.items.map (evLeaf ev)⟩ }
   | .bind (.leaf _) => { p with cur := none }
+  | .bindRaw _ => p                       -- (outside the reference: see `FlatOp`)
   | .push [] x => { p with cur := p.cur.map (pushObj · x) }
   | .push (_ :: _) _ => p
   | .read => { p with out := p.out ++ [match p.cur with | some o => flatTokens o | none => ["None"]] }
@@ -44,12 +45,14 @@ def privRun (ev : String → String) (lits : Heap) : List Op → PState → PSta
 def FlatOp (lits : Heap) : Op → Prop
   | .bind lit => ∃ l o, lit = .ref l ∧ lits[l]? = some o ∧ Flat o
   | .push p _ => p = []
+  | .bindRaw _ => False                   -- a value handed out without `arg_val` is the spec's own object
   | _ => True
 
 def flatOpB (lits : Heap) : Op → Bool
   | .bind (.ref l) => (match lits[l]? with | some o => flatB o | none => false)
   | .bind (.leaf _) => false
   | .push p _ => p.isEmpty
+  | .bindRaw _ => false
   | _ => true
 
 /-- what was observed of calls sharing a spec: what each call read last, and the spec's literals
